@@ -54,9 +54,9 @@ GInit == Init /\ hist = <<>> /\ granted = {}
 GNext ==
     IF Running # {}
     THEN \E t \in Running :
+            /\ UNCHANGED granted
             /\ \/ Crit(t) /\ Extend(t, [a |-> "Crit", b |-> 0])
                \/ Finish(t) /\ Extend(t, [a |-> "Finish", b |-> 0])
-            /\ UNCHANGED granted
     ELSE IF Wakeable # {}
     THEN \E t \in Wakeable :
             /\ Acquire(t, Want(t))
